@@ -34,6 +34,7 @@
 #include "signals.h"
 #include "test.h"
 #include <dbus/dbus-internals.h>
+#include <dbus/dbus-connection-internal.h>
 #include <dbus/dbus-message-internal.h>
 #include <dbus/dbus-misc.h>
 #include <dbus/dbus-test-tap.h>
@@ -66,6 +67,19 @@ send_one_message (DBusConnection *connection,
                   DBusError      *error)
 {
   DBusError stack_error = DBUS_ERROR_INIT;
+
+  /* A broadcast that originates from the bus driver itself has not been
+   * given a serial number yet. If it is refused for this recipient, the
+   * refusal is shown to monitors as an error reply to it, and
+   * bus_transaction_capture_error_reply() cannot mock one up for a message
+   * without a serial: same as in bus_transaction_send_from_driver(). */
+  if (dbus_message_get_serial (message) == 0)
+    {
+      dbus_uint32_t next_serial;
+
+      next_serial = _dbus_connection_get_next_client_serial (connection);
+      dbus_message_set_serial (message, next_serial);
+    }
 
   if (!bus_context_check_security_policy (context, transaction,
                                           sender,
